@@ -275,6 +275,37 @@ func c10NameCase(c *h.Ctx, k *c10Case) {
 	}
 }
 
+// One long-lived receiver decodes every packet of the run (a receive loop); what it decoded is kept BY VALUE (`saved := rx`)
+// and must still read the same records after the receiver has decoded the next packet. Questions are left out: the pinned
+// tree appends them across calls on a reused receiver (reported elsewhere), records it replaces.
+var c10Rx nbtns.NBTNSPacket
+var c10Saved *nbtns.NBTNSPacket
+var c10SavedRecords string
+
+func c10Records(p *nbtns.NBTNSPacket) string {
+	a := c10Abs(p)
+	j, _ := json.Marshal([]interface{}{a.AN, a.NS, a.AR})
+	return string(j)
+}
+
+func c10KeptByValue(c *h.Ctx, wire []byte, smp map[string]interface{}) {
+	var e error
+	if pn := h.Guard(func() { _, e = c10Rx.Unmarshal(append([]byte(nil), wire...)) }); pn != "" || e != nil {
+		c10Rx = nbtns.NBTNSPacket{}
+		c10Saved = nil
+		return
+	}
+	c.Exec(1)
+	if c10Saved != nil {
+		if now := c10Records(c10Saved); now != c10SavedRecords {
+			c.Fail(c10Unm, "kept-by-value-changed-by-next-decode", fmt.Sprintf("a packet decoded earlier and kept by value (saved := rx) read records %.200s; after the receiver decoded the next packet it reads %.200s", c10SavedRecords, now), smp)
+		}
+	}
+	saved := c10Rx
+	c10Saved = &saved
+	c10SavedRecords = c10Records(c10Saved)
+}
+
 func c10Emit(c *h.Ctx, ev map[string]interface{}) {
 	b, _ := json.Marshal(ev)
 	c.Emit(b)
@@ -322,6 +353,9 @@ func c10Packet(c *h.Ctx, kind string, key interface{}, p c10Pkt, judgeHere bool)
 			j, _ := json.Marshal(c10Abs(q))
 			return string(j)
 		}, smp)
+	}
+	if uerr == nil {
+		c10KeptByValue(c, out, smp)
 	}
 	if !judgeHere {
 		ev := map[string]interface{}{"op": "roundtrip", "p": p, "ok": uerr == nil, "back": c10Pkt{QD: []c10Q{}, AN: []c10RR{}, NS: []c10RR{}, AR: []c10RR{}}}
